@@ -607,8 +607,14 @@ class Parser:
             first, last = locs["lineno"], debug.end[0]
             lines = self._tokenizer.get_lines(list(range(first, last + 1)))
             end = debug.end[1]
-            while lines[-1][end : end + 1] in (" ", "\t", "\f"):
-                end += 1
+            while True:  # blanks and line ends after the '=' belong to the text too
+                while lines[-1][end : end + 1] in (" ", "\t", "\f", "\r", "\n") and end < len(lines[-1]):
+                    end += 1
+                following = self._tokenizer.get_lines([last + 1]) if end == len(lines[-1]) and lines[-1].endswith("\n") else [""]
+                if not following[0]:
+                    break
+                lines.append(following[0])
+                last, end = last + 1, 0
             lines[-1] = lines[-1][:end]
             lines[0] = lines[0][locs["col_offset"] + 1 :] if first != last else lines[0][locs["col_offset"] + 1 : end]
             node._debug_text = ast.Constant(  # type: ignore[attr-defined]
